@@ -1276,9 +1276,10 @@ def modelledTouches : List (String × List String) :=
 /-- everything `netref.class_factory` does, helpers followed (compare `Gen.Handlers.classFactoryCalls`): the name of a
 proxied class is resolved with `sys.modules.get` and then READ OUT of the module's namespace (`vars(module).get`) —
 `classLookup` above.  There is no `getattr` on the module (it would run a PEP 562 module `__getattr__` with the peer's
-name) and nothing in this list imports. -/
+name), no `hasattr` / attribute read on what was found (only a class is accepted: `issubclass(type(found), type)` asks
+the object nothing), and nothing in this list imports. -/
 def modelledClassFactoryCalls : List String :=
-  ["<call>", "NetrefClass", "_make_method", "_normalized_builtin_types.get", "hasattr", "isinstance",
+  ["<call>", "NetrefClass", "_make_method", "_normalized_builtin_types.get", "isinstance", "issubclass",
    "len", "str", "sys.modules.get", "type", "vars"]
 
 end Rpyc.Handlers
